@@ -8,6 +8,7 @@ Import ListNotations.
 (* be: false = core backend, true = einsum backend *)
 Inductive op :=
 | OModeDot (be : bool) (mode : nat) (tr : bool)                                     (* operands [T; M] *)
+| OModeDotZ (be : bool) (mode : Z) (tr : bool)                                     (* [T; M]; mode as a Python int *)
 | OMulti (be : bool) (modes : option (list nat)) (skip : option nat) (tr : bool)    (* [T; M1; ...] *)
 | OKhatri (be : bool) (hasw hasmask : bool) (skip : option nat)                     (* Ms ++ [w] ++ [mask] *)
 | OKron (be : bool) (skip : option nat) (reverse : bool)                            (* Ms *)
@@ -30,6 +31,8 @@ Definition run (o : op) (ts : list (tensor F)) : res (tensor F) :=
   match o with
   | OModeDot be mode tr =>
       match ts with [T; M] => (if be then mode_dot_e else mode_dot) Op T M mode tr | _ => Err end
+  | OModeDotZ be z tr =>
+      match ts with [T; M] => (if be then mode_dot_e_z else mode_dot_z) Op T M z tr | _ => Err end
   | OMulti be modes skip tr =>
       match ts with T :: Ms => (if be then multi_mode_dot_e else multi_mode_dot) Op T Ms modes skip tr | _ => Err end
   | OKhatri be hasw hasmask skip =>
